@@ -921,14 +921,28 @@ def int_sites(chk, rule: str, repo: Repo, folder, modules: list[str], table: dic
     chk.expect_count(rule, n, min_sites, f"int() conversions of non-constant values in {', '.join(modules)}")
 
 
-def last_iteration_edges(g, loop_vars: set, via_nodes, stop_nodes, model=EXPLICIT):
+def iteration_edges(loop: ast.For, value):
     """Edge predicate for find_path_edges: True for the branch of a test of the loop variable alone (`retry_count == 0`, in either polarity and
-    either branch order) from which none of `via_nodes` can be reached before `stop_nodes`: that branch is the iteration that does not go round
-    again (the last one), so a path through it is not a way round the loop."""
+    branch order) that is *not* taken when the loop variable has `value`.  A way round `for i in range(K)` is then examined once per iteration
+    that is followed by another one (i = 0 .. K-2); what the last iteration does is not a way round."""
+    from .dtable import Evaluator
+    lv = {x.id for x in ast.walk(loop.target) if isinstance(x, ast.Name)}
+
     def pred(a, b, k):
-        if not (a.kind == "test" and k in ("T", "F") and loop_vars and {x.id for x in ast.walk(a.ast) if isinstance(x, ast.Name)} <= loop_vars):
+        if not (a.kind == "test" and k in ("T", "F") and lv and {x.id for x in ast.walk(a.ast) if isinstance(x, ast.Name)} <= lv):
             return False
-        if b in via_nodes:
+        try:
+            v = bool(Evaluator({n: value for n in lv}).ev(a.ast))
+        except Exception:
             return False
-        return g.find_path([b], lambda n_: n_ in via_nodes, lambda n_: n_ in stop_nodes, model) is None
+        return (k == "T") != v
     return pred
+
+
+def repeating_values(loop: ast.For):
+    """Values of the loop variable in the iterations of `for i in range(K)` (K constant) that are followed by another iteration; None if the
+    iterable is something else."""
+    it = loop.iter
+    if isinstance(it, ast.Call) and isinstance(it.func, ast.Name) and it.func.id == "range" and len(it.args) == 1 and isinstance(it.args[0], ast.Constant) and isinstance(it.args[0].value, int):
+        return list(range(max(it.args[0].value - 1, 0)))
+    return None
